@@ -205,3 +205,6 @@ def run(ctx):
     for e in events:
         if len(e["pts"]) >= 6 and e["id"] not in rej:
             ctx.sample({k: e[k] for k in ("pts", "ts", "abs", "speed")}, limit=2)
+    # growth next to C17: the elevation measures over index ranges (Elevation.tla)
+    from drivers import elevation_common
+    elevation_common.run(ctx, ctx.tier == "quick")
